@@ -1,6 +1,7 @@
 package props
 
 import (
+	"encoding/json"
 	"math/rand/v2"
 	"time"
 
@@ -49,4 +50,23 @@ var commonAssumptions = []string{
 	"the wrapping engines (simkv/simlog) are thin delegates over the real badger/filelog drivers and are trusted",
 	"child built with go1.26.8 (testing/synctest fake clock, scheduler metrics) and a runtime build overlay that pins map iteration order",
 	"sampling, not enumeration: a clean batch is evidence, not proof",
+}
+
+func jsonValid(b []byte) bool { return json.Valid(b) }
+
+// isPrefixRecords: got (a JSON array) must consist of a prefix of ref's records.
+func isPrefixRecords(got, ref []byte) bool {
+	var g, r []json.RawMessage
+	if json.Unmarshal(got, &g) != nil || json.Unmarshal(ref, &r) != nil {
+		return false
+	}
+	if len(g) > len(r) {
+		return false
+	}
+	for i := range g {
+		if string(g[i]) != string(r[i]) {
+			return false
+		}
+	}
+	return true
 }
